@@ -147,6 +147,8 @@ def run(ctx):
             nontrivial.add(canon_hash({k: sc[k] for k in ("k", "kinds", "actions")}))
     # ---- oracle (S)
     for so in souts:
+        if so["phase"] == "respawn-skipped":
+            continue
         for n in range(so["names"]):
             tag = "%s/%s" % (so["kind"], so["phase"])
             if so["distinct_pids"][n] > 1:
@@ -155,7 +157,7 @@ def run(ctx):
                 report("stress:two-running-instances", "%s: %d instances of one name run after %d concurrent spawns" % (tag, so["alive"][n], so["callers"]), so)
             if so["not_running"][n] > 0:
                 report("stress:handed-pid-not-running", "%s: %d callers were handed a PID that is not running" % (tag, so["not_running"][n]), so)
-        if so["errors"] == 0 and so["num_actors"] != sum(so["alive"]):
+        if so["phase"] != "respawn-skipped" and so["errors"] == 0 and so["num_actors"] != sum(so["alive"]):
             report("stress:numactors-differs-from-running-actors", "%s/%s: NumActors=%d but %d user actors run" % (so["kind"], so["phase"], so["num_actors"], sum(so["alive"])), so)
     # ---- the Coq model on the same scenarios
     mism = None
@@ -205,7 +207,7 @@ Eval vm_compute in summary.
         "rule": "model scenario non-trivial = at least two Spawn calls of one name; distinct by hash; every stress round/phase counts once",
         "model_scenarios": len(scs), "model_steps": n_steps, "model_action_histogram": hist, "model_wait_timeouts": timeouts,
         "model_mismatches": mism, "stress_rounds": len(souts),
-        "stress_summary": [{k: so[k] for k in ("kind", "phase", "callers", "names", "distinct_pids", "alive", "num_actors", "errors")} for so in souts[:6]],
+        "stress_summary": [{k: so.get(k) for k in ("kind", "phase", "callers", "names", "distinct_pids", "alive", "num_actors", "errors")} for so in souts[:6]],
         "samples": [{k: scs[0][k] for k in ("k", "kinds", "actions")}, {k: scs[-1][k] for k in ("k", "kinds", "actions")}],
         "theorems": THEOREMS,
     })
